@@ -96,6 +96,10 @@ def inventory(facts, crate="marwood"):
                 # a fixed-width Ratio parsed from text is reduced in that width: the reduction can overflow whatever the radix
                 if k == "radix" and re.search(r"Ratio<(i8|i16|i32|i64|isize)>", t.get("fnargs") or ""):
                     k = "ratio"
+                # arbitrary-precision rationals: +, -, * and negation cannot overflow (division still needs a non-zero divisor)
+                if k == "ratio" and re.search(r"Ratio<(num::)?(bigint::)?BigInt>", t.get("fnargs") or "") and \
+                        re.search(r"std::ops::(Add|Sub|Mul|Neg)\b", t.get("fnargs") or ""):
+                    k = None
                 if k is not None:
                     name = short_path(c)
                     sites.append(Site(f, bb, "call:" + k, name, t["loc"], t["args"], t))
